@@ -180,12 +180,22 @@ Print Assumptions c18_pool_single_holder.
    unwound if the destroy callback panics -- the resource is gone either way) *)
 Theorem c18_pool_max_age : forall limit maxage s t r lu rest,
   POOL.t_pc (POOL.ts s t) = POOL.GLoop -> POOL.head s = (r, lu) :: rest -> 0 < maxage -> lu + maxage < POOL.now s ->
+  gate_open (POOL.open s) (if Nat.eqb (POOL.t_dpan (POOL.ts s t)) 2 then 80 + r else 0) = true ->
   exists s', POOL.step limit maxage (Thr t) s = Some s' /\ POOL.loc s' r = 2 /\ POOL.head s' = rest /\
-             POOL.t_pc (POOL.ts s' t) = (if Nat.eqb (POOL.t_dpan (POOL.ts s t)) 0 then POOL.GLoop else POOL.GPanic) /\
+             POOL.t_pc (POOL.ts s' t) = (if Nat.eqb (POOL.t_dpan (POOL.ts s t)) 1 then POOL.GPanic else POOL.GLoop) /\
              POOL.t_held (POOL.ts s' t) = POOL.t_held (POOL.ts s t) /\ POOL.t_res (POOL.ts s' t) = POOL.t_res (POOL.ts s t) /\
              POOL.ndestroy s' = (POOL.ndestroy s + 1)%Z /\ POOL.created s' = (POOL.created s - 1)%Z.
 Proof. exact pool_max_age_step. Qed.
 Print Assumptions c18_pool_max_age.
+
+(* while a slow destroy callback has not returned, the Get that called it does not move and keeps p.lock
+   (c18_pool_mutex): the replacement of an expired resource is created only after it is destroyed *)
+Theorem c18_pool_destroy_before_replace : forall limit maxage s t r lu rest,
+  POOL.t_pc (POOL.ts s t) = POOL.GLoop -> POOL.head s = (r, lu) :: rest -> POOL.expired maxage lu (POOL.now s) = true ->
+  gate_open (POOL.open s) (if Nat.eqb (POOL.t_dpan (POOL.ts s t)) 2 then 80 + r else 0) = false ->
+  POOL.step limit maxage (Thr t) s = None.
+Proof. exact pool_destroy_blocks. Qed.
+Print Assumptions c18_pool_destroy_before_replace.
 
 (* conversely a resource is handed out from the idle list only if it is not over age *)
 Theorem c18_pool_handout_not_expired : forall limit maxage s t r lu rest s',
